@@ -78,7 +78,7 @@ def draw_handler_state(vc, HS, basetime, name='s', retries_opt=False):
 @harness('G1', targets=[f'{PROG}.HandlerState.finished', f'{PROG}.HandlerState.sleeping',
                         f'{PROG}.HandlerState.awakened', f'{PROG}.HandlerState.runtime',
                         f'{PROG}.HandlerState.from_storage'],
-         props=['C02', 'C11', 'C10', 'C09', 'C03'],
+         props=['C02', 'C11', 'C10', 'C09', 'C03', 'C06', 'C14', 'C15', 'C16', 'C17', 'C18', 'C20'],
          clauses=['finished_def', 'sleeping_def', 'awakened_not_before_delay', 'awakened_when_due', 'runtime_def',
                   'from_storage_fields', 'from_storage_finished', 'from_storage_restart_independent'],
          canaries=['canary.never_sleeping', 'canary.never_awakened', 'canary.stored_never_finished'],
@@ -185,7 +185,7 @@ class _HandlerBoom(Exception):
     pass
 
 
-@harness('G2', targets=[f'{PROG}.HandlerState.with_outcome'], props=['C02', 'C11', 'C10', 'C09', 'C03'],
+@harness('G2', targets=[f'{PROG}.HandlerState.with_outcome'], props=['C02', 'C11', 'C10', 'C09', 'C03', 'C06', 'C14', 'C17', 'C20'],
          clauses=['retries_incremented', 'success_iff_final_without_exception', 'failure_iff_final_with_exception',
                   'delayed_is_now_plus_delay', 'started_unchanged', 'stopped_iff_final', 'subrefs_accumulate',
                   'not_awakened_before_delay', 'frame'],
@@ -330,7 +330,7 @@ def all_active_finished(states):
 
 @harness('G3', targets=[f'{PROG}.State.done', f'{PROG}.State.delays', f'{PROG}.State.delay', f'{PROG}.State.with_outcomes',
                         f'{PROG}.State.with_handlers', f'{PROG}.State.with_purpose'],
-         props=['C02', 'C06', 'C03', 'C14', 'C11', 'C10', 'C09'],
+         props=['C02', 'C06', 'C03', 'C14', 'C11', 'C10', 'C09', 'C05', 'C12', 'C15', 'C17', 'C18', 'C20'],
          prop_clauses={'C14': ['with_purpose_repurposes']},     # a superseded resume cycle must not lose its finished handlers' records
          clauses=['done_iff_all_active_finished', 'delays_empty_iff_all_active_finished', 'delays_cover_remaining', 'delay_is_min',
                   'with_outcomes_unknown_raises', 'with_outcomes_applies_exactly', 'with_handlers_activates_selected',
@@ -493,7 +493,7 @@ def sub_permutations(items):
 
 
 @harness('X3', targets=[f'{LIFE}.all_at_once', f'{LIFE}.one_by_one', f'{LIFE}.asap', f'{LIFE}.randomized', f'{LIFE}.shuffled'],
-         props=['C02'],
+         props=['C02', 'C03', 'C06', 'C09', 'C10', 'C11', 'C14', 'C15', 'C17', 'C18', 'C20'],
          clauses=['never_raises', 'plan_within_todo', 'no_duplicates', 'progress', 'documented_choice', 'frame'],
          canaries=['canary.plans_everything'],
          trusted=['random.choice(seq): some element of a non-empty seq; random.sample(seq, k): k elements at '
@@ -572,7 +572,7 @@ def X3(vc):
 
 
 # ----------------------------------------------------------------------------------------------- X2
-@harness('X2', targets='kopf._core.actions.execution.execute_handlers_once', props=['C02', 'C11', 'C09', 'C10', 'C20'],
+@harness('X2', targets='kopf._core.actions.execution.execute_handlers_once', props=['C02', 'C11', 'C09', 'C10', 'C20', 'C17', 'C18', 'C03', 'C05', 'C06', 'C08', 'C12', 'C14', 'C15'],
          clauses=['lifecycle_gets_awakened_only', 'invokes_only_awakened_members', 'state_of_that_handler',
                   'each_at_most_once', 'executes_the_plan', 'outcomes_by_id', 'passes_context', 'errors_propagate'],
          canaries=['canary.invokes_all_handlers', 'canary.never_raises'],
@@ -722,7 +722,7 @@ class _CycleState:
     def store(self, body, patch, storage): self.vc.emit('store', self, body, patch, storage)
 
 
-@harness('H8', targets='kopf._core.reactor.subhandling.execute', props=['C02', 'C11'],
+@harness('H8', targets='kopf._core.reactor.subhandling.execute', props=['C02', 'C11', 'C06'],
          clauses=['children_retry_iff_not_done', 'state_threaded', 'stored_before_escalation', 'subrefs_registered',
                   'implicit_once', 'registry_from_arguments', 'rejects_bad_usage', 'errors_propagate'],
          canaries=['canary.never_retries', 'canary.always_executes'],
